@@ -116,6 +116,13 @@ func ArgRole(p *core.Prog, r *core.Report) {
 					aj := srcName(args[j+off])
 					if aj != "" && an != aj && an == names[j] && aj == pn {
 						problems = append(problems, fmt.Sprintf("arguments %q and %q are handed over in the order of the other's parameter (%s, %s)", an, aj, pn, names[j]))
+					} else if aj != "" && roleOf(an) != "" && roleOf(aj) != "" && roleOf(an) != roleOf(aj) && roleOf(an) == roleOf(names[j]) && roleOf(aj) == roleOf(pn) {
+						// the same by role: the location of the value (path / name) and the place of the parameter (in)
+						problems = append(problems, fmt.Sprintf("the location %q and the place %q change places: they are handed over as (%s, %s)", an+"/"+aj, roleOf(an)+"/"+roleOf(aj), pn, names[j]))
+					} else if aj != "" && canonRole(an) != canonRole(pn) && canonRole(an) == canonRole(names[j]) && canonRole(aj) != canonRole(names[j]) {
+						// an argument that bears the name of another parameter of the same type, whose own slot is filled
+						// by something else: p.param.Format handed over as `in` while `format` receives p.param.In
+						problems = append(problems, fmt.Sprintf("argument %q is handed over as %q while the parameter %q of the same type receives %q", an, pn, names[j], aj))
 					}
 				}
 			}
@@ -195,4 +202,22 @@ func ArgRole(p *core.Prog, r *core.Report) {
 	if len(seq) == 0 {
 		r.OK(rule, "no-role-clash", "-", fmt.Sprintf("%d calls of package functions and error constructors: no swapped same-typed arguments, no path/in clash, every registry parameter receives the caller's registry", n))
 	}
+}
+
+// roleOf: the role a string plays by the name it bears in the package and in go-openapi/errors — "loc" for the
+// location of the value (path, name), "in" for the place of the parameter; "" when the name says nothing.
+func roleOf(n string) string {
+	switch n {
+	case "path", "Path", "name", "Name":
+		return "loc"
+	case "in", "In":
+		return "in"
+	}
+	return ""
+}
+
+// canonRole: the name without case (the message helpers of the package name their parameters loosely — `param,
+// path` for a name and a place — so that roles are not used here).
+func canonRole(n string) string {
+	return strings.ToLower(n)
 }
